@@ -64,7 +64,7 @@ fn partition_check<const B: usize>(layout: u8, maxlen: usize) {
     kani::cover!(len == maxlen && k > 0 && k + 1 < len, "W: full-length array, pivot lands strictly inside");
 }
 
-//@ prop=C15,C03 tier=quick mem=2 timeout=900 inst="ArrayViewMut1<u8>, unit stride" bounds="len 1..=4, all contents, all pivot positions; unwind 6"
+//@ prop=C15,C03:thorough tier=quick mem=2 timeout=900 inst="ArrayViewMut1<u8>, unit stride" bounds="len 1..=4, all contents, all pivot positions; unwind 6"
 #[kani::proof]
 #[kani::unwind(6)]
 fn c15_partition_unit_n4() {
@@ -78,7 +78,7 @@ fn c15_partition_step2_n4() {
     partition_check::<9>(1, 4);
 }
 
-//@ prop=C15,C03 tier=quick mem=2 timeout=900 inst="ArrayViewMut1<u8>, reversed (stride -1)" bounds="len 1..=4; unwind 6"
+//@ prop=C15,C03:thorough tier=quick mem=2 timeout=900 inst="ArrayViewMut1<u8>, reversed (stride -1)" bounds="len 1..=4; unwind 6"
 #[kani::proof]
 #[kani::unwind(6)]
 fn c15_partition_rev_n4() {
